@@ -144,8 +144,21 @@ pub fn replay_inflight(a: &Args) -> i32 {
         ID_POS.store(bi * 7 + 31, std::sync::atomic::Ordering::Relaxed);
         let gauge = Gauge::default();
         let layer = InflightLimitLayer::new(max, mode);
+        // every fifth behaviour runs behind a second, lenient limiter of the same kind further out in the
+        // stack (a generous per-peer ceiling for the whole node around a strict one for this service):
+        // each limiter counts for itself, so the strict one decides exactly as it does alone
+        let outer = InflightLimitLayer::new(64, mode);
+        let stacked = bi % 5 == 1;
         // requests go through clones of the layered service, as connections do
-        let mut services: Vec<_> = (0..3).map(|_| layer.layer(gauge.clone())).collect();
+        let mut services: Vec<tower::util::BoxCloneService<Request<Bytes>, Response<Bytes>, Status>> = (0..3)
+            .map(|_| {
+                if stacked {
+                    tower::util::BoxCloneService::new(outer.layer(layer.layer(gauge.clone())))
+                } else {
+                    tower::util::BoxCloneService::new(layer.layer(gauge.clone()))
+                }
+            })
+            .collect();
         let mut futs: HashMap<u64, Fut> = HashMap::new();
         let mut results: HashMap<u64, &'static str> = HashMap::new();
         let mut fail = None;
@@ -545,6 +558,76 @@ pub fn replay_auth(a: &Args) -> i32 {
             }
         }
     }
+    // an authorizer may do more than look: one that authenticates the request attaches, replaces or
+    // removes the sender identity when it accepts; accepted is accepted - the service is invoked, with
+    // the request as the authorizer left it
+    for (vi, variant) in ["attach", "replace", "remove"].iter().enumerate() {
+        evaluations += 1;
+        ID_POS.store(vi * 11 + 5, std::sync::atomic::Ordering::Relaxed);
+        let rec = Recorder::default();
+        let v = variant.to_string();
+        let layer = RequireAuthorizationLayer::new(move |req: &mut Request<Bytes>| {
+            match v.as_str() {
+                "attach" | "replace" => {
+                    req.extensions_mut().insert(peer_id(7));
+                }
+                _ => {
+                    req.extensions_mut().remove::<PeerId>();
+                }
+            }
+            Ok::<(), Response<Bytes>>(())
+        });
+        let mut svc = layer.layer(rec.clone());
+        let rid = 7000 + vi as u64;
+        let mut req = Request::new(Bytes::from(format!("payload-{rid}"))).with_header("rid", rid.to_string());
+        if *variant != "attach" {
+            req = req.with_extension(peer_id(3));
+        }
+        let mut f: AuthFut = Box::pin(svc.call(req));
+        let ok = matches!(poll_auth(&mut f), Poll::Ready(Ok(res)) if res.status() == StatusCode::Success)
+            && rec.invoked.lock().unwrap().contains(&rid);
+        if !ok {
+            mismatches.push(json!({"what": format!("an authorizer that accepts and {variant}s the sender identity: the wrapped service was not invoked / the caller did not get its answer")}));
+        }
+    }
+    // many refusals in a row from one task of a runtime (a connection's requests handled in one task, a
+    // batch job): every one of them is the authorizer's response, nothing panics
+    {
+        evaluations += 1;
+        let rt = tokio::runtime::Builder::new_current_thread().enable_all().build().unwrap();
+        let rec = Recorder::default();
+        let layer = RequireAuthorizationLayer::new(|req: &mut Request<Bytes>| {
+            let rid = req.headers().get("rid").cloned().unwrap_or_default();
+            Err::<(), _>(Response::new(Bytes::from(format!("denied-{rid}"))).with_status(StatusCode::NotFound).with_header("why", format!("policy-{rid}")))
+        });
+        let svc = layer.layer(rec.clone());
+        let res = std::panic::catch_unwind(std::panic::AssertUnwindSafe(|| {
+            rt.block_on(async move {
+                tokio::spawn(async move {
+                    let mut bad = 0u32;
+                    let mut clones = [svc.clone(), svc];
+                    for r in 0..400u64 {
+                        let req = Request::new(Bytes::new()).with_header("rid", r.to_string()).with_extension(peer_id(1 + r % 2));
+                        match clones[(r % 2) as usize].call(req).await {
+                            Ok(res) if res.status() == StatusCode::NotFound && res.body() == &Bytes::from(format!("denied-{r}"))
+                                && res.headers().get("why") == Some(&format!("policy-{r}")) => {}
+                            _ => bad += 1,
+                        }
+                    }
+                    bad
+                })
+                .await
+            })
+        }));
+        match res {
+            Ok(Ok(0)) => {}
+            Ok(Ok(bad)) => mismatches.push(json!({"what": format!("{bad} of 400 refusals issued back to back from one task were not the authorizer's response")})),
+            _ => mismatches.push(json!({"what": "400 refusals issued back to back from one task of a tokio runtime: the layer panicked"})),
+        }
+        if !rec.invoked.lock().unwrap().is_empty() {
+            mismatches.push(json!({"what": "refused requests reached the wrapped service"}));
+        }
+    }
     print_summary(&json!({"rows": rows.len(), "replayed": behaviours.len(), "evaluations": evaluations, "mismatches": mismatches}));
     0
 }
@@ -638,7 +721,16 @@ pub fn replay_rate(a: &Args) -> i32 {
             let key = step["k"].as_u64().unwrap();
             let want = step["admit"].as_bool().unwrap();
             let rid = si as u64 + 1;
-            let fut = clones[si % 2].call(request(rid, key));
+            // what else a request carries (the connection's origin and the direction, as every inbound
+            // request does) plays no part in the decision
+            let mut req = request(rid, key);
+            match (bi + si) % 4 {
+                1 => req = req.with_extension(anemo::ConnectionOrigin::Inbound).with_extension(anemo::Direction::Inbound),
+                2 => req = req.with_extension(anemo::ConnectionOrigin::Outbound).with_extension(anemo::Direction::Inbound),
+                3 => req = req.with_extension(anemo::ConnectionOrigin::Outbound),
+                _ => {}
+            }
+            let fut = clones[si % 2].call(req);
             let res = rt.block_on(fut);
             let reached = counting.reached.lock().unwrap().iter().any(|(_, r, _)| *r == rid);
             match res {
@@ -667,6 +759,29 @@ pub fn replay_rate(a: &Args) -> i32 {
             if mismatches.len() < 5 {
                 mismatches.push(json!({"behaviour": bi, "what": f, "steps": beh}));
             }
+        }
+    }
+    // Block mode waits for the limiter, not for anything else: with the quota's period at one hour a
+    // request over quota is still parked after tokio's (paused, auto-advancing) clock has run two hours
+    // ahead - the limiter's own clock, the one the quota is defined on, has not moved
+    {
+        evaluations += 1;
+        let prt = tokio::runtime::Builder::new_current_thread().enable_all().start_paused(true).build().unwrap();
+        let quota = governor::Quota::with_period(period).unwrap();
+        let counting = Counting::default();
+        let layer = RateLimitLayer::new(quota, RateWaitMode::Block);
+        let reached_early = prt.block_on(async {
+            let mut a = layer.layer(counting.clone());
+            let _ = a.call(request(1, 1)).await;
+            let mut b = layer.layer(counting.clone());
+            let parked = tokio::spawn(async move { b.call(request(2, 1)).await.is_ok() });
+            tokio::time::sleep(std::time::Duration::from_secs(7200)).await;
+            let n = counting.reached.lock().unwrap().len();
+            parked.abort();
+            n
+        });
+        if reached_early != 1 {
+            mismatches.push(json!({"what": format!("Block mode, quota 1 per hour: {reached_early} requests of one peer reached the service although the limiter's clock has not moved (only the first may)")}));
         }
     }
     // missing sender
